@@ -76,6 +76,9 @@ fn run_case(case: &Case, st: &mut RunStats) -> Outcome<Case> {
     let pcs = r.pointclouds();
     let mut dg = Digest::new();
     let mut simple_failures = 0u64;
+    let mut judged_norm = 0u64;
+    let mut bad_state_seen = false;
+    let mut above_max_seen = false;
     for (k, pc) in pcs.iter().enumerate() {
         let desc = pc_desc_from_e57(pc);
         let raw = run_op(&mut r, &ctx, &pcs, &[], &ROp::Raw { pc: k, take: None }, DEV_PIPE);
@@ -87,6 +90,7 @@ fn run_case(case: &Case, st: &mut RunStats) -> Outcome<Case> {
             // C01/C03 territory: nothing to compare the simple iterator with
             st.count("raw_failed_on_intact_file", 1);
         }
+        above_max_seen |= raw_points.iter().any(|p| p.iter().zip(desc.proto.iter()).any(|(v, r)| !v.fits(&r.dt)));
         for &ob in &case.opts {
             st.evaluations += 1;
             let o = ViewOpts::from_bits(ob);
@@ -101,7 +105,12 @@ fn run_case(case: &Case, st: &mut RunStats) -> Outcome<Case> {
             let mut wants = Vec::with_capacity(raw_points.len());
             for (i, p) in raw_points.iter().enumerate() {
                 match view(&desc, p, &o) {
-                    Ok(w) => wants.push(Some(w)),
+                    Ok(w) => {
+                        if w.intensity_tol > 0.0 || w.color_tol > 0.0 {
+                            judged_norm += 1;
+                        }
+                        wants.push(Some(w))
+                    }
                     Err(ViewError::BadInvalidState) => {
                         if bad_state_at.is_none() {
                             bad_state_at = Some(i);
@@ -110,6 +119,7 @@ fn run_case(case: &Case, st: &mut RunStats) -> Outcome<Case> {
                     }
                 }
             }
+            bad_state_seen |= bad_state_at.is_some();
             if let Err(e) = opened {
                 if raw_failed || damaged {
                     continue;
@@ -141,7 +151,9 @@ fn run_case(case: &Case, st: &mut RunStats) -> Outcome<Case> {
                 }
                 Ending::Failed(e) => {
                     simple_failures += 1;
-                    let excused = raw_failed || bad_state_at.map(|b| b >= points.len()).unwrap_or(false);
+                    // excused where a point not yet handed out stores a state outside its set (the
+                    // iterator converts a packet's points in one go, so it may stop ahead of it)
+                    let excused = raw_failed || wants.iter().skip(points.len()).any(|w| w.is_none());
                     if !excused {
                         let class = if e.contains("logic error") { "simple-fails-logic-error" } else { "simple-fails-alone" };
                         return Outcome::fail(class, format!("{what}: simple iterator failed after {} points ({e}) where the raw iterator reads all {} points", points.len(), raw_points.len()));
@@ -165,6 +177,9 @@ fn run_case(case: &Case, st: &mut RunStats) -> Outcome<Case> {
         }
     }
     st.probe("simple_failed_with_raw_on_damaged_page", damaged && simple_failures > 0);
+    st.count("normalised_values_judged", judged_norm);
+    st.probe("stored_invalid_state_outside_its_set", bad_state_seen);
+    st.probe("stored_bit_pattern_above_declared_maximum", above_max_seen);
     st.probe("pose_present", pcs.iter().any(|p| p.transform.is_some()));
     st.probe("producer_source", matches!(case.source, Source::Producer { .. }));
     st.absorb_ctx(&ctx);
@@ -185,7 +200,7 @@ impl Prop for C05 {
     fn meta(&self) -> Meta {
         Meta {
             level: "exploration",
-            rule: "files from the C01 generator (crate writer, knob on) and from the C03 producer (all layouts incl. packets that complete no point); per point cloud a drawn subset of the 64 option vectors (always the default vector, 3 more in quick; all 64 in thorough for clouds <= 500 points); raw and simple iteration on one E57Reader<SimDisk> with seeded short reads; every third run with an unsealed bit flip in a section page. Oracle: same count and order as the raw iterator; each point = reference view (written from the doc comments and the property text) of the raw point and the metadata the reader reports: validity states from the invalid-state attributes, scaled integers value*scale+offset, colour/intensity absent iff flagged or not stored, row/column default -1, spherical->Cartesian only when no valid Cartesian, Cartesian->spherical only for non-valid spherical, intensity->grey only without colour, pose (rotation then translation) on valid Cartesian only; computed coordinates compared with 1e-11 relative tolerance on the input magnitude (NaN = NaN, extremes only by state); normalised values only by presence (C13). The simple iterator may fail only if the raw iterator fails on the same bytes or a stored invalid-state lies outside its set. Distinct = hash(option vector, prototype names and type kinds, pose present, count class, damaged, source); non-trivial = at least one point yielded".into(),
+            rule: "files from the C01 generator (crate writer, knob on) and from the C03 producer (all layouts incl. packets that complete no point); per point cloud a drawn subset of the 64 option vectors (always the default vector, 3 more in quick; all 64 in thorough for clouds <= 500 points); raw and simple iteration on one E57Reader<SimDisk> with seeded short reads; every third run with an unsealed bit flip in a section page. Oracle: same count and order as the raw iterator; each point = reference view (written from the doc comments and the property text) of the raw point and the metadata the reader reports: validity states from the invalid-state attributes, scaled integers value*scale+offset, colour/intensity absent iff flagged or not stored, row/column default -1, spherical->Cartesian only when no valid Cartesian, Cartesian->spherical only for non-valid spherical, intensity->grey only without colour, pose (rotation then translation) on valid Cartesian only; computed coordinates compared with 1e-11 relative tolerance on the input magnitude (NaN = NaN, extremes only by state); normalised values (switch on) = (value - min) / (max - min) clamped to [0,1] with the cloud's limits when both are given as a pair of one numeric kind, else the record's type range, within 2e-6; not judged for non-finite values and for degenerate, reversed, non-finite or mixed-kind ranges (C13's corner cases). Producer files with flag 32 carry what the crate's writer cannot store: wider invalid-state types, stored states outside the set, bit patterns above a record's declared maximum with limits covering them. The simple iterator may fail only if the raw iterator fails on the same bytes or a stored invalid-state lies outside its set. Distinct = hash(option vector, prototype names and type kinds, pose present, count class, damaged, source); non-trivial = at least one point yielded".into(),
             assumptions: vec![
                 "invalid-state, row and column attributes have integer type (what the writer's rules demand)".into(),
                 "colour/intensity limits, where given, are ordered".into(),
@@ -193,7 +208,7 @@ impl Prop for C05 {
             ],
             real: vec!["e57 crate: PointCloudReaderSimple, QueueReader, raw iterator, E57Reader".into()],
             stub: vec!["SimDisk".into(), "reference view".into(), "refcodec encoder as producer".into(), "crate writer as producer".into()],
-            required_probes: vec!["producer_packet_completes_no_point".into(), "simple_failed_with_raw_on_damaged_page".into(), "pose_present".into(), "producer_source".into()],
+            required_probes: vec!["producer_packet_completes_no_point".into(), "simple_failed_with_raw_on_damaged_page".into(), "pose_present".into(), "producer_source".into(), "stored_invalid_state_outside_its_set".into(), "stored_bit_pattern_above_declared_maximum".into()],
         }
     }
     fn preflight(&self) -> Result<(), String> {
@@ -216,7 +231,7 @@ impl Prop for C05 {
             Source::Writer
         } else {
             let mut l = Rng::stream(rc.run_seed, "layout");
-            Source::Producer { layout: Layout::draw(&mut l), foreign: g.below(32) as u8 }
+            Source::Producer { layout: Layout::draw(&mut l), foreign: g.below(64) as u8 }
         };
         let mut opts = vec![DEFAULT_OPTS];
         if rc.tier == Tier::Thorough {
